@@ -77,7 +77,7 @@ def run(ck):
 # ---- Rule B --------------------------------------------------------------------------------------
 
 def rule_b(ck, prog, mg, gs):
-    vnew = prog.fn(VCH + "::new")
+    vnew = prog.inl(prog.fn(VCH + "::new"))   # private helpers of the constructor are part of it
     ck.saw(vnew)
     proof_fields = prog.adt_fields("winter_air::proof::Proof")
     read = set()
@@ -238,6 +238,7 @@ def _leaves_recomputed_fri(ck, prog):
 def _leaves_recomputed(f, ret_comp, what):
     """In parser f: the `leaves` argument of BatchMerkleProof::deserialize is computed by hash_elements from the
     same values (same producing call) that are returned as component ret_comp of the Ok tuple."""
+    f = f.prog.inl(f)
     g = flow(f)
     des = [(b, t) for b, t in f.calls() if (callee_name(t) or "").endswith("BatchMerkleProof::deserialize")]
     if not des:
@@ -350,8 +351,15 @@ def rule_m(ck, prog, mg, gs):
 
 def rule_p(ck, prog, mg, gs):
     n = 0
-    for name in PARSERS:
-        f = prog.fn(name)
+    # every function of the proof-parsing modules that opens a reader over proof bytes (the parse functions, or private helpers
+    # they were split into); Table::from_bytes is covered by the exact-length decision of its only caller (below)
+    parser_fns = [f for f in prog.fns.values() if f.kind != "closure" and f.crate in ("winter_air", "winter_fri") and
+                  (f.nname.startswith(("winter_air::proof::", "winter_fri::proof::"))) and "::tests::" not in f.nname and
+                  not f.nname.endswith("Table::from_bytes") and
+                  any((callee_name(t) or "").endswith("SliceReader::new") for _, t in f.calls())]
+    missing = [nm for nm in PARSERS if not any(True for _ in [prog.fn(nm)])]
+    for f in sorted(parser_fns, key=lambda x: x.nname):
+        name = f.nname
         ck.saw(f)
         g = flow(f)
         acc = accept_nodes(f)
@@ -361,7 +369,8 @@ def rule_p(ck, prog, mg, gs):
             n += 1
             src = g.walk(ops=[t["args"][0]], at=(b, T), through=V.transparent)
             flds = sorted(fl for (a, fl) in g.fields_in(src))
-            inst = f"{name.split('::')[-2]}::{name.split('::')[-1]}:{'/'.join(flds) or 'arg'}"
+            pars = sorted(f.local_name(p) or f"arg{p}" for p in g.params_in(src) if f.local_name(p) != "self")
+            inst = f"{name.split('::')[-2]}::{name.split('::')[-1]}:{'/'.join(flds) or '/'.join(pars) or 'arg'}"
             sites = []
             for gd in lg:
                 c = gd.cond
